@@ -138,3 +138,49 @@ V_ASSIGNS(g_qit->removed, g_qit->q->len, g_qit->q->first, g_qit->q->last, g.itr_
 V_ENSURES(V_RET == 0 && g_qit->removed && g_qit->q->len == V_OLD(g_qit->q->len) - 1 && g.itr_rm_calls == V_OLD(g.itr_rm_calls) + 1
           && g.itr_nonhead == (V_OLD(g.itr_nonhead) || g_qit->idx != 0))
 ;
+
+/* ---- abstract map / list as far as mod.c needs them --------------------------------------------------------------- */
+static inline bool v_map_ok_fn(const struct _map *m) { return m != NULL && V_RW_OK(m, sizeof(struct _map)) && m->len < ((size_t)1 << 60); }
+V_CONTRACT
+int m_map_remove(m_map_t *m, const char *key)
+V_REQUIRES(v_map_ok_fn(m) && key != NULL)
+V_ASSIGNS(m->len, g.maprm_calls)
+V_ENSURES(V_RET == g_maprm_ret && g.maprm_calls == V_OLD(g.maprm_calls) + 1 && m->len == V_OLD(m->len) - ((V_RET == 0) ? 1 : 0))
+;
+V_CONTRACT
+ssize_t m_map_len(const m_map_t *m)
+V_REQUIRES(m == NULL || v_map_ok_fn(m))
+V_ASSIGNS()
+V_ENSURES(V_RET == (m == NULL ? -EINVAL : (ssize_t)m->len))
+;
+V_CONTRACT
+void m_mem_unrefp(void **src)
+V_REQUIRES(src != NULL && V_RW_OK(src, sizeof(*src)))
+V_ASSIGNS(*src, g.unrefp_calls)
+V_ENSURES(*src == NULL && g.unrefp_calls == V_OLD(g.unrefp_calls) + 1)
+;
+V_CONTRACT
+int fs_cleanup(m_mod_t *mod)
+V_REQUIRES(1)
+V_ASSIGNS(g.fscleanup_calls)
+V_ENSURES(g.fscleanup_calls == V_OLD(g.fscleanup_calls) + 1)
+;
+V_CONTRACT
+int m_ctx_deregister(void)
+V_REQUIRES(1)
+V_ASSIGNS(g.ctxdereg_calls)
+V_ENSURES(V_RET == g_ctxdereg_ret && g.ctxdereg_calls == V_OLD(g.ctxdereg_calls) + 1)
+;
+/* modules bound to the focus module are not modelled: the units assume an empty bound list, so iteration never starts */
+V_CONTRACT
+m_list_itr_t *m_list_itr_new(const m_list_t *l)
+V_REQUIRES(l != NULL && V_R_OK(l, sizeof(struct _list)) && l->len == 0)
+V_ASSIGNS()
+V_ENSURES(V_RET == NULL)
+;
+V_CONTRACT
+m_bst_itr_t *m_bst_itr_new(const m_bst_t *l)
+V_REQUIRES(l != NULL && V_R_OK(l, sizeof(struct _bst)) && l->len == 0)
+V_ASSIGNS()
+V_ENSURES(V_RET == NULL)
+;
